@@ -18,15 +18,19 @@ From NV Require Import Base Generated C17_Model C17_Proofs.
 (* ---- validated replies ---- *)
 
 (* a call succeeds only if the file is an executable regular file, the process
-   exited by itself with status 0 (not killed by the context), its stdout is
-   within the cap and decodes into the response type, and - for metadata -
-   every mandatory field is present, the contract version is supported and the
-   name is the plugin's name *)
+   exited by itself with status 0 (not killed by the context; the context was
+   not already done when the call was made), its stdout is within the cap, the
+   process really ran and was given the command of the call, stdout decodes
+   into the response type, and - for metadata - every mandatory field is
+   present, the contract version is supported and the name is the plugin's name
+   (the name the CLIPlugin was made with; see C17_name_is_file_name in
+   C17_Audit.v for the file name) *)
 Theorem C17_success_only : forall i,
   p_result (model_p i) = ROk ->
   i_file i = FExec /\ i_exit i = 0%N
-  /\ (forall d, i_deadline i = Some d -> (i_sleep i <= d)%N)
+  /\ (forall d, i_deadline i = Some d -> (i_sleep i <= d)%N /\ d <> 0%N)
   /\ (i_stdout_len i <= cap)%N
+  /\ p_argv (model_p i) = Some (cmd_arg (i_cmd i))
   /\ exists m, i_stdout i = SGood m
      /\ (i_cmd i = GetMetadata ->
          m_name m <> "" /\ m_desc m <> "" /\ m_ver m <> "" /\ m_url m <> ""
@@ -40,7 +44,7 @@ Print Assumptions C17_success_only.
    closed before WaitDelay ran out *)
 Theorem C17_success_iff : forall i,
   p_result (model_p i) = ROk <->
-  (i_file i = FExec /\ proc_killed i = false /\ i_exit i = 0%N
+  (started i = true /\ proc_killed i = false /\ i_exit i = 0%N
    /\ (i_stdout_len i <= cap)%N /\ (i_stderr_len i <= cap)%N
    /\ io_expired (host_of i) (beh_of i) = false
    /\ exists m, i_stdout i = SGood m
@@ -48,24 +52,32 @@ Theorem C17_success_iff : forall i,
 Proof. exact model_ok_iff. Qed.
 Print Assumptions C17_success_iff.
 
+(* [started]: cmd.Start forked a process *)
+Theorem C17_started_iff : forall i,
+  started i = true <-> i_file i = FExec /\ i_deadline i <> Some 0%N.
+Proof. exact started_iff. Qed.
+Print Assumptions C17_started_iff.
+
 (* stdout is never accepted from a process that failed, was killed, exceeded
-   the cap on either stream, or whose descendants held the pipes too long *)
+   the cap on either stream, whose descendants held the pipes too long, or
+   that was never started *)
 Theorem C17_no_success_when : forall i,
   i_exit i <> 0%N \/ proc_killed i = true \/ (cap < i_stdout_len i)%N \/ (cap < i_stderr_len i)%N
-  \/ io_expired (host_of i) (beh_of i) = true \/ i_file i <> FExec ->
+  \/ io_expired (host_of i) (beh_of i) = true \/ i_file i <> FExec \/ i_deadline i = Some 0%N ->
   p_result (model_p i) <> ROk.
 Proof. exact no_success_when. Qed.
 Print Assumptions C17_no_success_when.
 
-(* a failing call yields the plugin's own structured error when the captured
-   stderr (at most the cap) holds one with at least one field, the executable
-   file error when stderr is empty, and the malformed-plugin error otherwise *)
+(* a failing call yields the plugin's own structured error (code, message AND
+   metadata map) when the captured stderr (at most the cap; nothing when no
+   process ran) holds one with at least one field, the executable file error
+   when stderr is empty, and the malformed-plugin error otherwise *)
 Theorem C17_error_kind : forall i,
   (i_file i = FExec \/ i_file i = FNoExec) -> exec_failed i = true ->
   (captured_stderr i = 0%N -> p_result (model_p i) = RExec)
-  /\ (forall code msg, captured_stderr i <> 0%N -> structured (i_stderr i) code msg ->
-        p_result (model_p i) = RReq code msg)
-  /\ (captured_stderr i <> 0%N -> (forall code msg, ~ structured (i_stderr i) code msg) ->
+  /\ (forall code msg md, captured_stderr i <> 0%N -> structured (i_stderr i) code msg md ->
+        p_result (model_p i) = RReq code msg md)
+  /\ (captured_stderr i <> 0%N -> (forall code msg md, ~ structured (i_stderr i) code msg md) ->
         p_result (model_p i) = RMalformed 0).
 Proof. exact error_kind. Qed.
 Print Assumptions C17_error_kind.
@@ -155,8 +167,8 @@ Print Assumptions C17_model_meets_oracle.
 (* ---- non-vacuity ---- *)
 Definition ex_meta := mk_meta "foo" "d" "1.0.0" "https://x" ["SIGNATURE_GENERATOR.RAW"] ["0.9"; "1.0"].
 Definition ex_in (name : string) (exit : N) (desc : option N) :=
-  mk_pinput GetMetadata name FExec exit 0 desc (Some 400%N) 200 (SGood ex_meta) 40
-            (EJson "ACCESS_DENIED" "no" true) 9400.
+  mk_pinput GetMetadata name (bin_name name) FExec exit 0 desc (Some 400%N) 200 (SGood ex_meta) 40
+            (EJson "ACCESS_DENIED" "no" (Some [("k", "v")])) 9400.
 
 Example C17_example_ok :
   wf_p (ex_in "foo" 0 None) = true /\ model_p (ex_in "foo" 0 None) = mk_pobs ROk true (Some "get-plugin-metadata").
@@ -165,14 +177,20 @@ Proof. split; reflexivity. Qed.
 Example C17_example_wrong_name : p_result (model_p (ex_in "bar" 0 None)) = RName.
 Proof. reflexivity. Qed.
 
-Example C17_example_failing : p_result (model_p (ex_in "foo" 1 None)) = RReq "ACCESS_DENIED" "no".
-Proof. reflexivity. Qed.
+Example C17_example_failing :
+  exec_failed (ex_in "foo" 1 None) = true /\ failing (ex_in "foo" 1 None) = true
+  /\ captured_stderr (ex_in "foo" 1 None) = 40%N
+  /\ structured (i_stderr (ex_in "foo" 1 None)) "ACCESS_DENIED" "no" (Some [("k", "v")])
+  /\ p_result (model_p (ex_in "foo" 1 None)) = RReq "ACCESS_DENIED" "no" (Some [("k", "v")]).
+Proof. repeat split; try reflexivity. left. discriminate. Qed.
 
 (* a descendant holds the pipes for 16 s: the reply is dropped, the call is back after 5 s *)
 Example C17_example_descendant :
-  model_p (ex_in "foo" 0 (Some 16000%N)) = mk_pobs (RReq "ACCESS_DENIED" "no") true (Some "get-plugin-metadata")
+  io_expired (host_of (ex_in "foo" 0 (Some 16000%N))) (beh_of (ex_in "foo" 0 (Some 16000%N))) = true
+  /\ model_p (ex_in "foo" 0 (Some 16000%N)) =
+     mk_pobs (RReq "ACCESS_DENIED" "no" (Some [("k", "v")])) true (Some "get-plugin-metadata")
   /\ t_return (host_of (ex_in "foo" 0 (Some 16000%N))) (beh_of (ex_in "foo" 0 (Some 16000%N))) = Fin 5000.
-Proof. split; reflexivity. Qed.
+Proof. repeat split; reflexivity. Qed.
 
 (* limit 10; writes of 4, 8 and 3 bytes over a buffer: 4, then 6 of the 8, then the limit error *)
 Example C17_example_cap :
